@@ -77,6 +77,25 @@ OPS = ["rowwise", "rowwise", "filter", "exhaust"]
 
 
 @st.composite
+def st_cuts(draw, rows, S, E):
+    """Sorted admissible cut times.  Zero-duration chunks (a cut at the run border or a repeated cut) only in
+    shape "zero": they are legal but rare in practice, and several recorded findings hang on them."""
+    adm = gen.admissible_times(rows, S, E)
+    inner = [x for x in adm if S < x < E]
+    shape = draw(st.sampled_from(["few"] * 5 + ["none", "all", "all", "zero"]))
+    if shape == "none" or (shape != "zero" and not inner):
+        return []
+    if shape == "all":
+        return inner
+    if shape == "few":
+        return sorted(set(draw(st.lists(st.sampled_from(inner), min_size=1, max_size=3))))
+    cuts = draw(st.lists(st.sampled_from(adm), min_size=1, max_size=3))
+    if draw(st.booleans()):
+        cuts = cuts + [cuts[draw(st.integers(0, len(cuts) - 1))]]
+    return sorted(cuts)
+
+
+@st.composite
 def st_pool(draw, unit, n):
     """n runs in time order on the grid: [dict(start, end, rows, cuts)]"""
     P = 10 ** 6 // unit  # grid steps per millisecond
@@ -87,7 +106,7 @@ def st_pool(draw, unit, n):
         mode = draw(st.sampled_from(["disjoint", "disjoint", "overlap", "sorted_end"]))
         head = draw(gen.st_rows(max_n=4, mode=mode, first_max=2, max_len=3))
         rows = [[a + S, b + S] for a, b in head]
-        long = draw(st.booleans())
+        long = draw(st.sampled_from([True, True, False]))
         last = max([b for _, b in rows] + [S])
         if long:
             B = (S // P + 1) * P  # the next millisecond border: the run reaches it
@@ -99,9 +118,9 @@ def st_pool(draw, unit, n):
             E = max(B, last) + draw(st.integers(0, 2))
         else:
             E = max(last + draw(st.integers(0, 2)), S + 1)
-        cuts = draw(gen.st_cuts(rows, S, E, max_cuts=3))
+        cuts = draw(st_cuts(rows, S, E))
         runs.append(dict(start=S, end=E, rows=rows, cuts=cuts))
-        gap = draw(st.sampled_from(["tiny", "tiny", "ms", "s"])) if long else draw(st.sampled_from(["ms", "ms", "s"]))
+        gap = draw(st.sampled_from(["tiny", "tiny", "tiny", "ms", "s"])) if long else draw(st.sampled_from(["ms", "ms", "s"]))
         if gap == "tiny":
             t = E + draw(st.integers(0, 3))
         elif gap == "ms":
@@ -118,7 +137,7 @@ def st_case(draw, threaded=False):
     nsub = draw(st.sampled_from([1, 2, 2, 2, 3, 3, 4]))
     npool = nsub + draw(st.sampled_from([0, 0, 1]))
     pool = draw(st_pool(unit, npool))
-    names = draw(st.permutations(list(range(npool)))) if draw(st.integers(0, 3)) == 0 else list(range(npool))
+    names = draw(st.permutations(list(range(npool)))) if draw(st.sampled_from([0] * 9 + [1])) else list(range(npool))
     for r, nm in zip(pool, names):
         r["name"] = f"{nm:03d}"
     members = sorted(draw(st.permutations(list(range(npool))))[:nsub])
@@ -130,8 +149,8 @@ def st_case(draw, threaded=False):
         if cand == members:  # must be a different set: drop / swap one
             cand = cand[1:] if len(cand) > 1 else [x for x in range(npool) if x not in members][:1]
         B = list(draw(st.permutations(cand)))
-    depth = draw(st.sampled_from([1, 2, 2, 3, 3]))
-    k = draw(st.integers(1, depth))
+    depth = draw(st.sampled_from([3, 2, 3, 2, 1]))
+    k = draw(st.sampled_from([x for x in (1, 1, 2, 3) if x <= depth]))
     levels = []
     kind = {0: 0}
     for j in range(1, depth + 1):
@@ -146,7 +165,7 @@ def st_case(draw, threaded=False):
             lv["rol"] = False
         levels.append(lv)
         kind[j] = j if op == "filter" else kind[j - 1]
-    target = draw(st.integers(k, depth))
+    target = draw(st.sampled_from([depth, depth] + list(range(k, depth + 1))))
     nchunks = sum(len(r["cuts"]) + 1 for r in pool)
     cfg = dict(processor="threaded_mailbox" if threaded else "single_thread",
                max_workers=draw(st.sampled_from([1, 1, 2])), allow_lazy=draw(st.booleans()),
@@ -308,7 +327,7 @@ def rows_of(arr, j):
 # ----------------------------------------------------------------------------------------------------
 # spy on Chunk.split: recognises the two recorded root causes at the place where they happen
 # ----------------------------------------------------------------------------------------------------
-SPY = dict(f16=set(), f15=set(), f1430=None)
+SPY = dict(f16=set(), f15=set(), f1430=None, f1431=False)
 
 
 def _pos(spans):
@@ -341,6 +360,10 @@ def _spy_split(self, t, allow_early_split=False):
                 for r in set(w) | set(g):
                     if w.get(r) != g.get(r):
                         SPY["f16"].add(r)
+        # F1431: the left piece (the one that is processed / saved) of a superrun chunk lost all its subruns:
+        # zero-length spans {r: t..t} are handed to the right piece only and then dropped as empty
+        if self.subruns and c1.subruns is None:
+            SPY["f1431"] = True
         # F15: a piece whose own spans are all empty falls back to {first run of the unsplit chunk: piece range}
         whole = {r: (v["start"], v["end"]) for r, v in (self.superrun or {}).items()}
         if len(whole) >= 2:
@@ -365,8 +388,11 @@ class Problems:
         self.items.append((clause, detail, run))
 
 
-ANNOT_F16 = ("annot.span_differs", "annot.spans_not_adjacent", "annot.spans_incomplete", "annot.row_outside_span")
-ANNOT_F15 = ("annot.span_differs", "annot.unexpected_subrun")
+# bookkeeping clauses about one subrun: a wrong span made by either root cause travels downstream through
+# concatenation (spans merged), saving (metadata) and loading
+ANNOT_F16 = ("annot.span_differs", "annot.unexpected_subrun", "annot.spans_not_adjacent", "annot.spans_incomplete",
+             "annot.row_outside_span")
+ANNOT_F15 = ANNOT_F16
 
 
 def tags():
@@ -375,6 +401,8 @@ def tags():
         out += "[F16-branch:split-of-superrun-chunk-not-aligned-with-its-subrun-spans runs=%s]" % sorted(SPY["f16"])
     if SPY["f1430"]:
         out += "[F1430-branch:sub_run_spec-in-name-order %s]" % SPY["f1430"]
+    if SPY["f1431"]:
+        out += "[F1431-branch:split-left-piece-of-superrun-chunk-lost-its-subruns]"
     if SPY["f15"]:
         out += "[F15-branch:split-piece-with-only-empty-spans-relabelled runs=%s]" % sorted(SPY["f15"])
     return out
@@ -390,6 +418,10 @@ def attributable(clause, run, text=""):
             return "F16"
     if SPY["f15"] and clause in ANNOT_F15 and run in SPY["f15"]:
         return "F15"
+    if SPY["f1431"] and (clause == "annot.no_subruns"
+                         or (clause.endswith(".raised:TypeError") and "'NoneType' object is not subscriptable" in text)
+                         or (clause.endswith(".raised:ValueError") and "has no subruns information" in text)):
+        return "F1431"
     if SPY["f1430"] and ((clause.endswith(".raised:ValueError") and "out-of-order" in text)
                          or clause.endswith("rows_differ") or clause.startswith("combining.")):
         return "F1430"
@@ -415,6 +447,18 @@ def _sig_f15(sub, desc, bucket, message):
     return "[F15-branch:" in message and bucket in ("clause:" + c for c in ANNOT_F15) and _first_chunk_zero(desc)
 
 
+@signature("C14_F1431_zero_duration_superrun_chunk_loses_subruns")
+def _sig_f1431(sub, desc, bucket, message):
+    """Splitting a superrun chunk whose spans are all of zero length (a zero-duration chunk) at its end gives the
+    left piece subruns=None: continuity_check then fails on the next chunk (TypeError), the chunk is stored with
+    subruns null and the stored superrun cannot be loaded (ValueError 'has no subruns information')."""
+    zero = any(a == b for r in desc["pool"] for a, b in zip([r["start"]] + r["cuts"], r["cuts"] + [r["end"]]))
+    return ("[F1431-branch:" in message and zero and (
+        bucket == "clause:annot.no_subruns"
+        or (bucket.endswith(".raised:TypeError") and "'NoneType' object is not subscriptable" in message)
+        or (bucket.endswith(".raised:ValueError") and "has no subruns information" in message)))
+
+
 @signature("C14_F1430_sub_run_spec_in_name_order")
 def _sig_f1430(sub, desc, bucket, message):
     """DataDirectory writes run documents with sort_keys=True: the order of sub_run_spec (sorted by run start in
@@ -432,8 +476,9 @@ def _first_chunk_zero(desc):
 # ----------------------------------------------------------------------------------------------------
 # oracle for the bookkeeping
 # ----------------------------------------------------------------------------------------------------
-def check_annot(P, what, chunks, ranges, owner=None, level=None):
-    """chunks: [(start, end, run_id, subruns dict|None, rows|None)]; ranges: [(name, S, E)] in time order."""
+def check_annot(P, what, chunks, ranges, owner=None, ordered=True):
+    """chunks: [(start, end, run_id, subruns dict|None, rows|None)]; ranges: [(name, S, E)] in time order.
+    ordered=False for chunk metadata read from JSON (the order of an object's keys carries no meaning there)."""
     if not chunks:
         P.add("annot.no_chunks", what)
         return
@@ -457,7 +502,8 @@ def check_annot(P, what, chunks, ranges, owner=None, level=None):
             continue
         got = {r: (int(v["start"]), int(v["end"])) for r, v in sub.items()}
         keys = list(sub)
-        if keys != sorted(keys, key=lambda r: got[r][0]) or [r for r in order if r in got] != [r for r in keys if r in R]:
+        if ordered and (keys != sorted(keys, key=lambda r: got[r][0])
+                        or [r for r in order if r in got] != [r for r in keys if r in R]):
             P.add("annot.key_order", f"{what}: chunk {ci} subruns {sub}")
         for r in order:
             S, E = R[r]
@@ -526,6 +572,7 @@ def run_case(d):
     SPY["f16"].clear()
     SPY["f15"].clear()
     SPY["f1430"] = None
+    SPY["f1431"] = False
     strax.Chunk.split = _spy_split
     try:
         return _run(d, token, path)
@@ -679,7 +726,7 @@ def _run(d, token, path):
             continue
         md = job("reread", lambda: ctxB.get_metadata(SUP, lname(j)), False)
         mchunks = [(c["start"], c["end"], c["run_id"], c.get("subruns"), None) for c in md["chunks"]]
-        check_annot(P, f"metadata({lname(j)})", mchunks, ranges)
+        check_annot(P, f"metadata({lname(j)})", mchunks, ranges, ordered=False)
         lchunks, _ = query(ctxB, "reread", SUP, lname(j), controlled=threaded and j == tgt)
         rr = [r for c in lchunks for r in c[4]]
         check_rows(f"reread({lname(j)})", rr, exp[j])
@@ -749,6 +796,7 @@ def _run(d, token, path):
     cl.add("write" if d["write"] else "nowrite")
     cl.add(cfg["processor"])
     cl.update("op@superrun:" + d["levels"][j - 1]["op"] for j in range(k, tgt + 1))
+    cl.add(f"superrun_levels={tgt - k + 1}")
     cl.update("op@subrun:" + d["levels"][j - 1]["op"] for j in range(1, k))
     if d["A"] != members:
         cl.add("defined_in_shuffled_order")
